@@ -337,7 +337,7 @@ func runC16(w *mc.Worker) {
 			desc += ", variables cost nothing (variable-rich scripts)"
 		}
 		w.Stage(b.name, desc, func() {
-			g := &Full{MaxStmts: 2, Depth: b.depth, VarsFree: b.varsFree, ExtraUnused: true}
+			g := &Full{MaxStmts: 2, Depth: b.depth, VarsFree: b.varsFree, ExtraUnused: b.edits >= 2 || !b.varsFree}
 			w.Outer(b.name+"/script", b.weight, func(o *mc.Explorer) {
 				base := gen.Text(g.Program(o))
 				if !w.Mine(base) {
